@@ -198,9 +198,7 @@ Lemma add_event_unfold c sz b i e :
     let b' := buf_set (buf_set b (e_fac e) (e_lvl e) (buf_get b (e_fac e) (e_lvl e) ++ [e])) (e_fac e) (e_lvl e) q' in
     add_event c sz b i e =
       if r then mkAe b' i true (is_some (i_rep i))
-      else if c_qual c && cmpZ incident_cmp (e_lvl e) incident_level
-           then mkAe b' (fst (declare_incident c b' i e)) (snd (declare_incident c b' i e)) (is_some (i_rep i))
-           else mkAe b' i false (is_some (i_rep i)).
+      else mkAe b' (fst (qualifier_stage c b' i e)) (snd (qualifier_stage c b' i e)) (is_some (i_rep i)).
 Proof.
   destruct (trim_spec (buf_get b (e_fac e) (e_lvl e) ++ [e]) (limit_of sz (e_fac e) (e_lvl e))) as (q' & r & H1 & H2 & H3 & H4).
   exists q', r. split; [exact H1|]. split; [exact H2|]. split; [exact H3|]. split; [exact H4|].
@@ -209,8 +207,7 @@ Proof.
   rewrite buf_get_set_same. rewrite H1. cbn [x_raised x_bufs x_inc x_notified].
   destruct r; [reflexivity|].
   cbn [add_stage_step x_raised x_bufs x_inc x_notified].
-  destruct (c_qual c && cmpZ incident_cmp (e_lvl e) incident_level); [|reflexivity].
-  destruct (declare_incident c _ i e) as [i' raised]. reflexivity.
+  destruct (qualifier_stage c _ i e) as [i' raised]. reflexivity.
 Qed.
 
 Definition bufs_le (M : Z) (b : bufs_t) : Prop := forall f l, Z.of_nat (List.length (buf_get b f l)) <= M.
@@ -228,8 +225,7 @@ Lemma add_event_x_bufs c sz b i e :
 Proof.
   destruct (add_event_unfold c sz b i e) as (q' & r & H1 & H2 & H3 & H4 & H5).
   exists q'. split.
-  - cbv zeta in H5. rewrite H5. destruct r; [reflexivity|].
-    destruct (c_qual c && cmpZ incident_cmp (e_lvl e) incident_level); reflexivity.
+  - cbv zeta in H5. rewrite H5. destruct r; reflexivity.
   - split; [exact H2|]. split.
     + intros Hl. destruct r; [destruct (H4 eq_refl); lia | apply H3; reflexivity].
     + intros Hl. destruct r; [apply H4; reflexivity|]. specialize (H3 eq_refl). lia.
@@ -530,15 +526,18 @@ Proof.
   destruct (c_trailing c); cbn; repeat split; reflexivity.
 Qed.
 
-Lemma declare_incident_never_fails c b i e :
-  snd (declare_incident c b i e) = false /\ i_junk (fst (declare_incident c b i e)) = i_junk i /\
-  i_zombie (fst (declare_incident c b i e)) = i_zombie i.
+Lemma declare_incident_junk c b i e : i_junk (fst (declare_incident c b i e)) = i_junk i.
 Proof.
-  unfold declare_incident. destruct (one_reporter_at_a_time && (is_some (i_rep i) || i_zombie i)).
-  - cbn. repeat split; reflexivity.
-  - match goal with |- context [incident_declared c b ?i1 e] =>
-      destruct (incident_declared_never_fails c b i1 e) as (A & B & C) end.
-    split; [exact A|]. split; [exact B | exact C].
+  unfold declare_incident. destruct (one_reporter_at_a_time && (is_some (i_rep i) || i_zombie i)); [reflexivity|].
+  destruct (c_fault c); try reflexivity;
+    match goal with |- context [incident_declared c b ?i1 e] =>
+      destruct (incident_declared_never_fails c b i1 e) as (A & B & C) end; exact B.
+Qed.
+
+Lemma qualifier_stage_junk c b i e : i_junk (fst (qualifier_stage c b i e)) = i_junk i.
+Proof.
+  unfold qualifier_stage. destruct (c_qual c && _); [|reflexivity].
+  destruct (c_fault c) eqn:F; try reflexivity; apply declare_incident_junk.
 Qed.
 
 (* ---- the trailing events *)
@@ -589,7 +588,7 @@ Proof. intros Hr H0. unfold trailing_event. rewrite Hr, H0. reflexivity. Qed.
 
 (* ---- one unrepresentable event is harmless: full strength on the current tree (serialize_total = true) *)
 Theorem incident_recorded c sz b i e :
-  c_qual c = true -> incident_level <= e_lvl e -> i_rep i = None -> i_zombie i = false ->
+  c_fault c = NoFault -> c_qual c = true -> incident_level <= e_lvl e -> i_rep i = None -> i_zombie i = false ->
   0 <= limit_of sz (e_fac e) (e_lvl e) ->
   let a := add_event c sz b i e in
   x_raised a = false /\
@@ -600,13 +599,13 @@ Theorem incident_recorded c sz b i e :
      i_rep (x_inc a) = Some (mkRep e (sort_by_num (all_buffered (x_bufs a))) TRAILING_EVENT_LIMIT true) /\
      i_junk (x_inc a) = i_junk i).
 Proof.
-  intros Hq Hl Hr Hz Hlim. cbv zeta.
+  intros Hf Hq Hl Hr Hz Hlim. cbv zeta.
   destruct (add_event_unfold c sz b i e) as (q' & r & H1 & H2 & H3 & H4 & H5). cbv zeta in H5.
   destruct r; [destruct (H4 eq_refl); lia|].
-  rewrite H5. rewrite Hq. unfold incident_cmp, cmpZ. cbn [andb].
+  rewrite H5. unfold qualifier_stage. rewrite Hq, Hf. unfold incident_cmp, cmpZ. cbn [andb].
   destruct (incident_level <=? e_lvl e) eqn:E; [|apply Z.leb_gt in E; lia].
   set (b' := buf_set _ _ _ q').
-  unfold declare_incident. rewrite Hr, Hz. unfold one_reporter_at_a_time. cbn [is_some orb andb].
+  unfold declare_incident. rewrite Hr, Hz, Hf. unfold one_reporter_at_a_time. cbn [is_some orb andb].
   rewrite (incident_declared_ok c b' _ e (enc_total _) (forallb_enc_total _)).
   destruct (c_trailing c); cbn [fst snd x_raised x_inc x_bufs].
   - split; [reflexivity|]. split; [discriminate|]. intros _. cbn. split; reflexivity.
@@ -615,7 +614,7 @@ Qed.
 
 (* the same, valid whatever serialize_to_json_utf8 looks like, for histories whose buffered events can be encoded *)
 Theorem incident_recorded_guarded c sz b i e :
-  c_qual c = true -> incident_level <= e_lvl e -> i_rep i = None -> i_zombie i = false ->
+  c_fault c = NoFault -> c_qual c = true -> incident_level <= e_lvl e -> i_rep i = None -> i_zombie i = false ->
   0 <= limit_of sz (e_fac e) (e_lvl e) ->
   let a := add_event c sz b i e in
   enc e = true -> forallb enc (all_buffered (x_bufs a)) = true ->
@@ -624,13 +623,13 @@ Theorem incident_recorded_guarded c sz b i e :
   (c_trailing c = true ->
      i_rep (x_inc a) = Some (mkRep e (sort_by_num (all_buffered (x_bufs a))) TRAILING_EVENT_LIMIT true)).
 Proof.
-  intros Hq Hl Hr Hz Hlim. cbv zeta.
+  intros Hf Hq Hl Hr Hz Hlim. cbv zeta.
   destruct (add_event_unfold c sz b i e) as (q' & r & H1 & H2 & H3 & H4 & H5). cbv zeta in H5.
   destruct r; [destruct (H4 eq_refl); lia|].
-  rewrite H5. rewrite Hq. unfold incident_cmp, cmpZ. cbn [andb].
+  rewrite H5. unfold qualifier_stage. rewrite Hq, Hf. unfold incident_cmp, cmpZ. cbn [andb].
   destruct (incident_level <=? e_lvl e) eqn:E; [|apply Z.leb_gt in E; lia].
   set (b' := buf_set _ _ _ q'). cbn [x_bufs]. intros He Hb.
-  unfold declare_incident. rewrite Hr, Hz. unfold one_reporter_at_a_time. cbn [is_some orb andb].
+  unfold declare_incident. rewrite Hr, Hz, Hf. unfold one_reporter_at_a_time. cbn [is_some orb andb].
   rewrite (incident_declared_ok c b' _ e He Hb).
   destruct (c_trailing c); cbn [fst snd x_raised x_inc x_bufs].
   - split; [reflexivity|]. split; [discriminate|]. intros _. reflexivity.
@@ -644,7 +643,7 @@ Proof.
   intros Hl. destruct (add_event_unfold c sz b i e) as (q' & r & H1 & (k & H2) & H3 & H4 & H5). cbv zeta in H5.
   assert (Hb : x_bufs (add_event c sz b i e) =
                buf_set (buf_set b (e_fac e) (e_lvl e) (buf_get b (e_fac e) (e_lvl e) ++ [e])) (e_fac e) (e_lvl e) q').
-  { rewrite H5. destruct r; [reflexivity|]. destruct (c_qual c && _); reflexivity. }
+  { rewrite H5. destruct r; reflexivity. }
   rewrite Hb, buf_get_set_same.
   (* q' is a suffix of old ++ [e]; it is non-empty unless trimming emptied it, which needs limit < 1 *)
   unfold trim, trim_kind in H1.
@@ -661,14 +660,10 @@ Qed.
 
 (* ---- nothing is ever abandoned: over ANY history no incident is left as .flog/.bz2.tmp, and no reporter is left
         referenced-but-dead between calls *)
-Lemma add_event_junk c sz b i e :
-  i_junk (x_inc (add_event c sz b i e)) = i_junk i /\ i_zombie (x_inc (add_event c sz b i e)) = i_zombie i.
+Lemma add_event_junk c sz b i e : i_junk (x_inc (add_event c sz b i e)) = i_junk i.
 Proof.
   destruct (add_event_unfold c sz b i e) as (q' & r & H1 & H2 & H3 & H4 & H5). cbv zeta in H5. rewrite H5.
-  destruct r; [split; reflexivity|].
-  destruct (c_qual c && _); [|split; reflexivity]. cbn [x_inc].
-  destruct (declare_incident_never_fails c (buf_set (buf_set b (e_fac e) (e_lvl e) (buf_get b (e_fac e) (e_lvl e) ++ [e]))
-                                                    (e_fac e) (e_lvl e) q') i e) as (_ & J & Z0). split; assumption.
+  destruct r; [reflexivity|]. cbn [x_inc]. apply qualifier_stage_junk.
 Qed.
 
 Lemma msg_inner_junk c s e : i_junk (s_inc (fst (fst (msg_inner c s e)))) = i_junk (s_inc s).
@@ -724,13 +719,13 @@ Definition ev_ids (l : list event) : list Z := map e_id l.
 
 (* numbers: three logger-numbered calls (one of them failing inside _msg) interleaved with a caller-numbered one *)
 Example ex_numbers :
-  snd (run (mkCfg true true) init [Msg None 0 20 true true 0; Msg (Some 7) 0 20 true true 1; MsgBad false 2; Msg None 2 30 false true 3])
+  snd (run (mkCfg true true NoFault) init [Msg None 0 20 true true 0; Msg (Some 7) 0 20 true true 1; MsgBad false 2; Msg None 2 30 false true 3])
   = [Some 0; Some 7; Some 1; Some 2].
 Proof. vm_compute. reflexivity. Qed.
 
 (* bounds: limit 2 on (None, 20): the two most recent events stay; lowering a limit does not trim by itself *)
 Example ex_bounded :
-  let s := fst (run (mkCfg false false) init [SetSize 0 20 2; Msg None 0 20 true true 0; Msg None 0 20 true true 1; Msg None 0 20 true true 2;
+  let s := fst (run (mkCfg false false NoFault) init [SetSize 0 20 2; Msg None 0 20 true true 0; Msg None 0 20 true true 1; Msg None 0 20 true true 2;
                                               SetSize 0 20 1]) in
   ev_ids (buf_get (s_bufs s) 0 20) = [1; 2] /\ limit_of (s_sizes s) 0 20 = 1.
 Proof. vm_compute. split; reflexivity. Qed.
@@ -738,7 +733,7 @@ Proof. vm_compute. split; reflexivity. Qed.
 (* a negative limit: popleft on the empty deque raises inside _msg, the caller still gets its number, and the
    internal-error event is logged instead *)
 Example ex_negative_limit :
-  let '(s, r) := run (mkCfg false false) init [SetSize 0 20 (-1); Msg None 0 20 true true 0] in
+  let '(s, r) := run (mkCfg false false NoFault) init [SetSize 0 20 (-1); Msg None 0 20 true true 0] in
   r = [None; Some 0] /\ ev_ids (all_buffered (s_bufs s)) = [-1].
 Proof. vm_compute. split; reflexivity. Qed.
 
@@ -750,19 +745,19 @@ Proof. vm_compute. repeat split; reflexivity. Qed.
 
 (* incident with an event the plain encoder rejects (e_ok = false) in the history AND as trailing event: recorded *)
 Example ex_incident_trailing :
-  let s := fst (run (mkCfg true true) init [Msg None 0 20 false true 0; Msg None 2 20 true true 1; Msg None 0 30 true true 2;
+  let s := fst (run (mkCfg true true NoFault) init [Msg None 0 20 false true 0; Msg None 2 20 true true 1; Msg None 0 30 true true 2;
                                             Msg None 0 20 false false 3; Msg None 0 20 true true 4; Timer]) in
   map ev_ids (i_files (s_inc s)) = [[2; 0; 1; 2; 3; 4]] /\ i_recorded (s_inc s) = 1 /\ i_declared (s_inc s) = 1 /\
   i_junk (s_inc s) = 0 /\ i_rep (s_inc s) = None.
 Proof. vm_compute. repeat split; reflexivity. Qed.
 
 Example ex_incident_nontrailing_then_later :
-  let s := fst (run (mkCfg true false) init [Msg None 0 20 false true 0; Msg None 0 30 false true 1; Msg None 2 40 true true 2]) in
+  let s := fst (run (mkCfg true false NoFault) init [Msg None 0 20 false true 0; Msg None 0 30 false true 1; Msg None 2 40 true true 2]) in
   map ev_ids (i_files (s_inc s)) = [[1; 0; 1]; [2; 0; 1; 2]] /\ i_recorded (s_inc s) = 2.
 Proof. vm_compute. split; reflexivity. Qed.
 
 (* the hypotheses of incident_recorded are met by a non-trivial state *)
 Example ex_incident_recorded_hyps :
-  let s := fst (run (mkCfg true true) init [Msg None 0 20 false true 0; Msg None 2 20 true true 1]) in
+  let s := fst (run (mkCfg true true NoFault) init [Msg None 0 20 false true 0; Msg None 2 20 true true 1]) in
   i_rep (s_inc s) = None /\ i_zombie (s_inc s) = false /\ 0 <= limit_of (s_sizes s) 0 30 /\ incident_level <= 35.
 Proof. vm_compute. repeat split; try reflexivity; discriminate. Qed.
